@@ -83,7 +83,8 @@ func main() {
 		replay = true
 	}
 	r := vlib.NewRun(id, tier, levels[id])
-	r.NoEvidence = replay
+	// VERIF_NO_EVIDENCE: runs against a deliberately altered tree (tools/trymutant.sh and friends) leave the committed evidence alone
+	r.NoEvidence = replay || os.Getenv("VERIF_NO_EVIDENCE") != ""
 	os.Exit(fn(r))
 }
 
